@@ -49,6 +49,8 @@ class PageHinkley(StreamingDetector):
                 Defaults to ``'positive'``.
         """
         super().__init__()
+        # univariate detector: the width of valid input is known up front
+        self._input_col_dim = 1
 
         self.burn_in = burn_in
         self.delta = delta
